@@ -14,7 +14,7 @@ from .. import replay_printenv, reparse
 from .args import parse
 
 MODULES = ["harness.corpus.basic", "harness.corpus.configs", "harness.corpus.memory", "harness.corpus.shapes",
-           "harness.corpus.nameclash"]
+           "harness.corpus.nameclash", "harness.corpus.indexmat"]
 
 
 def main():
